@@ -1,7 +1,52 @@
 (* further operations (added per property) *)
 open Model
 open Util
+
 let case_begin () = ()
-let line (pr : ('a, Buffer.t, unit) format -> 'a) (kind : string) (rest : string list) (raw : string) = ignore (pr, kind, rest, raw)
-let run (pr : ('a, Buffer.t, unit) format -> 'a) (opidx : int) (impl : string list option) (toks : string list) : bool =
-  ignore (pr, opidx, impl, toks); false
+let line (kind : string) (rest : string list) (raw : string) = ignore (kind, rest, raw)
+
+(* ---- C09 ---- *)
+let srv_of_tok (t : string) : srv =
+  if t = "dyn" then { s_dyn = true; s_state = N0; s_lost = N0 }
+  else
+    match String.split_on_char ':' t with
+    | [ st; lo ] -> { s_dyn = false; s_state = n_of_int (int_of_string st); s_lost = n_of_int (int_of_string lo) }
+    | _ -> failwith "srv"
+
+let op_choose opidx impl toks =
+  let l = List.map srv_of_tok toks in
+  let c, l' = choosesrvconf l in
+  let idx = function None -> "none" | Some i -> string_of_int (int_of_nat i) in
+  pr "obs %d choose %s%s\n" opidx (idx c)
+    (String.concat "" (List.map (fun s -> if s.s_dyn then " dyn" else Printf.sprintf " %d" (int_of_n s.s_lost)) l'));
+  (match impl with
+  | Some ("choose" :: ic :: _) when List.for_all (fun s -> not s.s_dyn) l ->
+      let ci = if ic = "none" then None else Some (nat_of_int (int_of_string ic)) in
+      spec opidx "C09_choice" (spec_choose l ci && never_failing l ci) (String.concat " " toks)
+  | _ -> ())
+
+(* ---- C03 ---- *)
+let op_recrypt opidx impl toks =
+  let g i = match List.nth_opt toks i with Some x -> bytes_of_hex x | None -> [] in
+  let kind = List.hd toks in
+  let v = g 1 and os = g 2 and ns = g 3 and oa = g 4 and na = g 5 in
+  let osalt = g 6 and nsalt = g 7 in
+  let res = if kind = "pwd" then pwdrecrypt md5 v os ns oa na osalt nsalt else msmpprecrypt md5 v os ns oa na in
+  (match res with
+   | Some v' -> pr "obs %d recrypt 1 %s\n" opidx (hex_of_bytes v')
+   | None -> pr "obs %d recrypt 0 %s\n" opidx (hex_of_bytes v));
+  (match impl with
+   | Some [ "recrypt"; r; iv ] ->
+       let out = if r = "1" then Some (bytes_of_hex iv) else None in
+       let ok = if kind = "pwd" then spec_pwd_recrypt md5 v os ns oa na osalt nsalt out
+                else spec_mppe_recrypt md5 v os ns oa na out in
+       (* a refused value must be left untouched *)
+       let ok = ok && (r = "1" || bytes_of_hex iv = v) in
+       spec opidx (if kind = "pwd" then "C03_pwd_recrypt" else "C03_mppe_recrypt") ok (Printf.sprintf "len=%d" (List.length v))
+   | _ -> ())
+
+let run (opidx : int) (impl : string list option) (toks : string list) : bool =
+  match toks with
+  | "choose" :: rest -> op_choose opidx impl rest; true
+  | "recrypt" :: rest -> op_recrypt opidx impl rest; true
+  | _ -> false
